@@ -137,7 +137,7 @@ PROPS = {
         "exhaustive_part": "small-scope enumeration of the mlw engine (see rule); the random parts are sampled",
     },
     "C06": {
-        "engine": "mlw",
+        "engine": ["mlw", "sock"],
         "level_text": "Lean 4 theorems C06.conservation / flush_ok_all_written / drop_all_written / flush_idempotent / emit_ok_len / oversize_written_in_own_emit over the same model: delivered ++ pending = acknowledged lines (as lists: exactly once, in order) for every history and oracle. Line-level statements assume a non-empty terminator.",
         "level_note": _WRITER_NOTE + "; StatsdClient::flush and QueuingMetricSink::flush are covered by the correspondence (spy cases) as delegations",
         "technique": "Lean 4 proof (refinement + conservation invariant over histories) + model/implementation correspondence",
@@ -147,7 +147,7 @@ PROPS = {
         "exhaustive_part": "small-scope enumeration of the mlw engine (see rule); the random parts are sampled",
     },
     "C07": {
-        "engine": "mlw",
+        "engine": ["mlw", "sock"],
         "level_text": "Lean 4 theorems C07.emit_result / flush_result / failed_emit_not_kept / conservation_under_faults / flush_writes_all_pending / framing_survives_faults, each universally quantified over the oracle (every fail/succeed/Interrupted assignment to every attempted write).",
         "level_note": _WRITER_NOTE,
         "technique": "Lean 4 proof (oracle-quantified refinement and conservation) + fault-script correspondence",
